@@ -11,10 +11,12 @@ from lib import common, play, stories
 
 LEVEL = "proof"
 HARNESS_FEATURES = [[], ["stream"]]
-THEOREM_MODULES = ["Proofs.C15"]
+THEOREM_MODULES = ["Proofs.C15", "Proofs.Tables"]
 REQUIRED_THEOREMS = ["Ink.C15.parse_total", "Ink.C15.loadStory_no_panic", "Ink.C15.loadStory_err_kind",
                      "Ink.C15.loadState_no_panic", "Ink.C15.save_helpers_no_panic", "Ink.C15.loadState_touches_only_state",
                      "Ink.C15.failed_load_then_reset_is_fresh", "Ink.C15.failed_load_then_reset_eq_blank"]
+from lib.tables_thms import TABLE_THEOREMS  # noqa: E402
+REQUIRED_THEOREMS = REQUIRED_THEOREMS + TABLE_THEOREMS
 RULE = ("a case = one mutated document: structural mutations of the JSON value (delete / retype / duplicate / swap a "
         "node, numeric extremes, key renames), truncation (at every byte for small documents), nesting bombs, token "
         "damage and random bytes, applied to valid story documents (given to Story::new under both loaders) and to "
